@@ -4,6 +4,8 @@ the C10/C11 laws on the implementation."""
 import copy
 from fractions import Fraction as F
 
+import random
+
 import common as C
 import gens as G
 from exnum import EPS, Ex, frac, install_exact
@@ -242,15 +244,31 @@ def monitor_c10(rep, n, replay_case=None):
                 d = (s / 2, [x * s for x in d[1]], d[2])
             v = G.rand_q(r)
             cases.append({"adds": adds, "nons": nons, "a": a, "b": b, "d": d, "v": v})
-    for c in cases:
+    loads = {}
+    for ci, c in enumerate(cases):
         adds, nons = c["adds"], c["nons"]
-        G.set_partition(adds, nons)
+        if ci % 5 == 2 and replay_case is None or c.get("declared_by_load"):
+            # the pollutant set is declared by loading a configuration file that carries all or some of the three keys
+            keys = c.get("declared_by_load") or random.Random(f"{C.seed()}:c10-load:{ci}").choice(
+                [["pollutants", "additive_pollutants", "non_additive_pollutants"], ["additive_pollutants", "non_additive_pollutants"],
+                 ["additive_pollutants", "non_additive_pollutants"], ["pollutants", "additive_pollutants"], ["non_additive_pollutants"]])
+            c["declared_by_load"] = keys
+            G.set_partition_by_load(adds, nons, keys)
+            loads["+".join(keys)] = loads.get("+".join(keys), 0) + 1
+            from wsimod.core import constants as _k
+            if list(_k.ADDITIVE_POLLUTANTS) != list(adds) or list(_k.NON_ADDITIVE_POLLUTANTS) != list(nons):
+                # (not a clause of C10 by itself: the laws below are evaluated against the declared partition)
+                loads["process partition differs from the declared one"] = loads.get("process partition differs from the declared one", 0) + 1
+        else:
+            G.set_partition(adds, nons)
         try:
             o = make_obj()
             D = lambda v: G.to_dict(v, adds, nons)
             T = lambda dd: G.from_dict(dd, adds, nons)
             a, b, d, v = c["a"], c["b"], c["d"], c["v"]
             cj = {"additive": adds, "non_additive": nons, "a": G.vq_str(a), "b": G.vq_str(b), "d": G.vq_str(d), "v": str(v)}
+            if c.get("declared_by_load"):
+                cj["declared_by_load"] = c["declared_by_load"]
             try:
                 da, db = D(a), D(b)
                 s = T(o.sum_vqip(da, db))
@@ -330,7 +348,7 @@ def monitor_c10(rep, n, replay_case=None):
             rep.add_eval(("mon", str(cj)), nontrivial=a[0] > 0)
         finally:
             G.reset_partition()
-    rep.monitor["c10_laws_on_implementation"] = {"cases": len(cases), "violations": viol, "guards": kinds}
+    rep.monitor["c10_laws_on_implementation"] = {"cases": len(cases), "violations": viol, "guards": kinds, "pollutant_set_declared_by_Model_load": loads}
     return viol
 
 
